@@ -440,7 +440,7 @@ Lemma ev_all_intro t r d tl o older :
         | _, _ => true
         end = true) ->
   ev_C11 e t r d tl = true ->
-  match o with Loop l c _ => if c =? 0 then is_panic r else loop_shape_ok l r | _ => true end = true ->
+  match o with Loop l c cr => if c =? 0 then is_panic r else loop_shape_ok l r && loop_panic_ok cr r | _ => true end = true ->
   ev_all t r d tl = true.
 Proof.
   intros Hs H2 H3 H4a H4b H4c H5 H6 H11 H12.
@@ -464,7 +464,7 @@ Lemma ev_C11_nolen t r d tl o older :
   (zero_reported older = true -> delivers_nothing e r = true) ->
   ev_C11 e t r d tl = true.
 Proof.
-  intros Hs Hl Hz. unfold ev_C11. rewrite Hs, Hl. cbn [andb].
+  intros Hs Hl Hz. unfold ev_C11. rewrite (yes_zero_nolen r Hl), Hs, Hl. cbn [negb andb].
   unfold zero_reported in Hz. destruct (min_reported older) as [[|]|]; auto.
 Qed.
 
@@ -1043,7 +1043,7 @@ Proof.
         -- intros H. unfold delivers_nothing. rewrite Hnil by (unfold stopped; rewrite H; now rewrite orb_true_r). reflexivity.
         -- apply ev_C11_nolen with (Loop l cc crash) older; try assumption; [reflexivity|].
            intros H. unfold delivers_nothing. rewrite Hnil by (unfold stopped; rewrite H; now rewrite !orb_true_r). reflexivity.
-        -- destruct (N.eqb_spec cc 0); [contradiction|]. cbn [loop_shape_ok]. rewrite forallb_rev.
+        -- destruct (N.eqb_spec cc 0); [contradiction|]. cbn [loop_shape_ok loop_panic_ok]. rewrite andb_true_r, forallb_rev.
            apply (Ha2 l cc crash eq_refl).
       * intros Hnp. apply (same_gap c t _ _ _ (rev (acc_iv (c_pool c t)))); try assumption;
           try exact (has_panic_app_false [ERet t (RLoop (rev (t_acc (c_pool c t)))) []] _ Hnp).
@@ -1115,7 +1115,7 @@ Proof.
     + (* inside a loop *)
       destruct (loop_ops _ _ _ _ _ Hres Ctx) as (cc & -> & Hcc).
       unfold deliver_loop.
-      destruct (loop_invoke_cases l crash (total_cnt (t_acc (c_pool c t))) b cnt Hlt Hc1) as (inv & pan & -> & Hi1 & Hi2 & Hinv).
+      destruct (loop_invoke_cases l crash (total_cnt (t_acc (c_pool c t))) b cnt Hlt Hc1) as (inv & pan & Eli & Hi1 & Hi2 & Hinv). rewrite Eli.
       destruct pan as [used|].
       * (* the closure panics: the loop returns *)
         destruct Hinv as (Hu1 & Hu2 & Hinv).
@@ -1159,6 +1159,7 @@ Proof.
            ++ rewrite Hns_s. discriminate.
            ++ apply ev_C11_nolen with (Loop l cc crash) older; try assumption; [reflexivity|]. rewrite Hns_z. discriminate.
            ++ destruct (N.eqb_spec cc 0); [contradiction|].
+              rewrite (loop_panic_user _ _ _ _ _ _ _ _ Eli), andb_true_r.
               change (forallb (shape_ok l) (rev (rev inv ++ t_acc (c_pool c t))) = true).
               rewrite forallb_rev, forallb_app, forallb_rev, Hi2. cbn [andb]. apply (Ha2 l cc crash eq_refl).
         -- intros Hnpp. cbn [app has_panic is_panic orb] in Hnpp. discriminate Hnpp.
@@ -1468,7 +1469,7 @@ Proof.
         destruct (Hnp0 Hz) as [_ ->]. unfold delivers_nothing. rewrite Hcov0.
         destruct (call_res_len_op _ _ _ Hres) as [[-> _]|[-> _]]; reflexivity.
       + (* C11 *)
-        unfold ev_C11. rewrite Hsplit, Hla.
+        unfold ev_C11. rewrite yes_zero_len_res, Hsplit, Hla. cbn [negb andb].
         assert (HB : match min_reported older with Some 0 => delivers_nothing e (len_res hm (Some n)) | _ => true end = true).
         { unfold delivers_nothing. rewrite Hcov0. destruct (min_reported older) as [[|]|]; reflexivity. }
         rewrite HB, andb_true_r.
